@@ -31,4 +31,6 @@ VARIANTS = [
       "    coords = np.linspace(start, stop, num=int(round((stop - start) / step)), endpoint=False, dtype=dtype)", "R16.1"),
     # F27: the pre-repair form
     V("trailing-test-on-empty-range(F27)", "src/soundevent/arrays/dimensions.py", "    if coords.size > 0 and coords[-1] >= stop - step / 2:", "    if coords[-1] >= stop - step / 2:", "R16.5"),
+    V("N-trailing-test-len-guard", "src/soundevent/arrays/dimensions.py", "    if coords.size > 0 and coords[-1] >= stop - step / 2:", "    if len(coords) and coords[-1] >= stop - step / 2:", None),
+    V("N-trailing-test-nested-guard", "src/soundevent/arrays/dimensions.py", "    if coords.size > 0 and coords[-1] >= stop - step / 2:\n        coords = coords[:-1]\n", "    if coords.shape[0] > 0:\n        if coords[-1] >= stop - step / 2:\n            coords = coords[:-1]\n", None),
 ]
